@@ -274,6 +274,14 @@ Theorem C10_string_field :
 Proof. exact string_field_roundtrip. Qed.
 Print Assumptions C10_string_field.
 
+(* the harness hands a report to the kernel line by line: f.readlines() of the joined text gives back exactly those
+   lines, each with its line break, for every number of lines *)
+Theorem C10_readlines :
+  forall ls, Forall (fun l => all_chars (fun c => negb (Ascii.eqb c NLc)) l = true) ls ->
+  readlines (join_nl ls) = map (fun l => l ++ NL) ls.
+Proof. exact readlines_join. Qed.
+Print Assumptions C10_readlines.
+
 (* the kernel check indexes every line once (texts in front of ": " / " = ", reversed) instead of scanning every
    line for every field: a marker m ++ sep matches a line iff reversed m starts one of the indexed texts, so the
    indexed check returns, for every report and every client answer, exactly what the plain model returns *)
@@ -388,3 +396,6 @@ Example C10_ex_string_field :
   /\ field_of_line "End-Use Option" true (spaces 6 ++ "End-Use Option" ++ ":" ++ spaces 1 ++ "Direct-Use Heat" ++ NL)
      = MR (MStr "Direct-Use Heat") None.
 Proof. split; [apply solid_join; [reflexivity | reflexivity | discriminate] | vm_compute; reflexivity]. Qed.
+
+Example C10_ex_readlines : readlines (join_nl ["a b"; ""; "c"]) = ["a b" ++ NL; NL; "c" ++ NL].
+Proof. vm_compute. reflexivity. Qed.
